@@ -59,6 +59,8 @@ def _splice(f, bi, g):
     new_blocks = []
     for b in g['blocks']:
         nb = _remap(b, lmap, bmap)
+        if nb['term']['k'] == 'call':
+            nb['term']['_spliced'] = True     # a trait call here is generic in the helper; in an instantiated caller the receiver is the caller's Self
         if nb['term']['k'] == 'return':
             ret = {'k': 'assign', 'at': nb['term'].get('at'), 'exp': False, 'place': t['dest'],
                    'rv': {'k': 'use', 'x': {'k': 'move', 'place': {'local': off_l, 'proj': [], 'ty': g['locals'][0]}}}}
@@ -102,18 +104,37 @@ def inline_new_helpers(facts):
             if not ext <= reach[k]:
                 reach[k] |= ext
                 changed = True
+    def has_loop(f):
+        from analysis import facts as F_
+        try:
+            return bool(F_.natural_loops(f))
+        except Exception:  # noqa
+            return True
+    # a helper with a loop of its own stays a call: the interprocedural engines summarise it, and splicing it into a caller's loop
+    # would turn one loop into a nest (which costs the numeric engine its loop bounds)
     ok = {k for k in new if k not in reach[k]}
+    loopy = {k for k in ok if has_loop(facts.fns[k])}      # spliced only where that does not create a loop nest
     originals = {k: copy.deepcopy(facts.fns[k]) for k in ok}
     done = {}
     for key in sorted(facts.fns):
         f = facts.fns[key]
         for _ in range(MAX_DEPTH):
             sites = []
+            in_loop = None
             for bi, b in enumerate(f['blocks']):
                 t = b['term']
                 if t['k'] == 'call' and not b.get('cleanup') and len(f['blocks']) < MAX_BLOCKS:
                     cks = facts.callee_keys(f, t)
                     if len(cks) == 1 and cks[0] in ok and cks[0] != key and len(t['args']) == originals[cks[0]].get('arg_count', len(t['args'])):
+                        if cks[0] in loopy:
+                            if in_loop is None:
+                                from analysis import facts as F_
+                                try:
+                                    in_loop = set().union(*F_.natural_loops(f).values()) if F_.natural_loops(f) else set()
+                                except Exception:  # noqa
+                                    in_loop = set(range(len(f['blocks'])))
+                            if bi in in_loop:
+                                continue
                         sites.append((bi, cks[0]))
             if not sites:
                 break
